@@ -304,7 +304,7 @@ static std::string pick_relax(Rng &r, const Input &in) {
 
 //---------------------------------------------------------------------------
 static void sub_hier() {
-    long N = vf::tier(80, 1500), stride = vf::opt_int("stride", 1);
+    long N = vf::tier(240, 1500), stride = vf::opt_int("stride", 1);
     for (long idx = 0; idx < N; ++idx) {
         if (!vf::selected("hier", idx) || idx % stride) continue;
         Rng r(vf::case_seed("hier", idx)); int kind = (int)(idx % NKINDS), ci = (int)((idx / NKINDS) % 4);
@@ -327,7 +327,7 @@ static void sub_hier() {
 //---------------------------------------------------------------------------
 // synthetic transfer operators through the replaying policy: integer data, all four coarse_operator implementations exact
 static void sub_synthetic() {
-    long N = vf::tier(60, 800), stride = vf::opt_int("stride", 1);
+    long N = vf::tier(160, 800), stride = vf::opt_int("stride", 1);
     for (long idx = 0; idx < N; ++idx) {
         if (!vf::selected("synthetic", idx) || idx % stride) continue;
         Rng r(vf::case_seed("synthetic", idx)); int ci = (int)(idx % 4);
@@ -371,7 +371,7 @@ static Csr<double> mutate(const Csr<double> &A, int how, Rng &r, std::string &na
 }
 
 static void sub_rebuild() {
-    long N = vf::tier(48, 640), stride = vf::opt_int("stride", 1);
+    long N = vf::tier(128, 640), stride = vf::opt_int("stride", 1);
     for (long idx = 0; idx < N; ++idx) {
         if (!vf::selected("rebuild", idx) || idx % stride) continue;
         Rng r(vf::case_seed("rebuild", idx)); int ci = (int)(idx % 4), kind = (int)((idx / 4) % 7); if (kind == 5) kind = 7;   // all families but kron (block_size) keep it simple: 0,1,2,3,4,6,7
@@ -397,18 +397,26 @@ static void sub_rebuild() {
                     c.check(fresh_throws, "rebuild:exception:" + cfg.coars + "/" + cfg.relax, std::string("rebuild threw although a fresh hierarchy can be built from the same matrix: ") + e.what(), J().n("step", step).s("matrix", mname));
                     vf::obs_sum("rebuild_histories_cut_by_component_exception"); break; }
                 std::string tag = cfg.coars; J where = J().n("step", step).s("matrix", mname).s("history", hist);
-                // (a) coarse_operator calls seen during the rebuild: one per coarsened level, with the original transfer operators, chained, Galerkin
-                size_t k = 0; Csr<double> cur = canon(Mat(An.n, An.m, An.ptr, An.col, An.val)); std::vector<Csr<double>> chain(1, cur); bool proto = true;
-                for (auto &e : g_tape) { if (e.kind != 1 || k >= m) { proto = false; break; }
-                    c.check(same(canon(*e.A), cur), "rebuild:chain:" + tag, "rebuild: coarse_operator on this level was not given the new matrix of the level", where);
-                    c.check(same(canon(*e.P), b0.P[k]) && same(canon(*e.R), b0.R[k]), "rebuild:transfer-operators-changed:" + tag, "rebuild: coarse_operator was given transfer operators that differ from the original ones", where);
-                    check_galerkin(c, e, cfg.alpha, false, tag); cur = canon(*e.Ac); chain.push_back(cur); ++k; }
-                c.check(proto && k == m, "rebuild:call-protocol:" + tag, "rebuild did not recompute exactly one coarse operator per coarsened level", J().n("calls", k).n("levels", m).n("step", step));
-                if (!(proto && k == m)) break;
-                // (b) level list: transfer operators untouched, matrices = chain
-                size_t li = 0; bool lv_ok = lv.size() == m + 1;
-                for (auto it = lv.begin(); lv_ok && it != lv.end(); ++it, ++li) { if (li < m) { c.check(it->P && it->R && it->bP && it->bR && same(canon(*it->P), b0.P[li]) && same(canon(*it->R), b0.R[li]) && same(canon(*it->bP), b0.P[li]) && same(canon(*it->bR), b0.R[li]), "rebuild:transfer-operators-changed:" + tag, "rebuild changed P / R / bP / bR of a level", where); }
-                    if (it->A) c.check(same(canon(*it->A), chain[li]), "rebuild:stale-level-matrix:" + tag, "after rebuild a level matrix is not R A' P of the new matrix", J().n("level", li).n("step", step).s("matrix", mname)); }
+                // (a) coarse_operator calls seen during the rebuild (a library may also form R A' P without consulting the policy:
+                //     then this part observes nothing and (b), (c) carry the check): original transfer operators, chained, Galerkin
+                size_t k = 0; Csr<double> first = canon(Mat(An.n, An.m, An.ptr, An.col, An.val)), cur = first; std::vector<Csr<double>> chain(1, cur); bool proto = true;
+                for (auto &e : g_tape) if (e.kind != 1) proto = false;
+                if (proto && g_tape.size() == m) {
+                    for (auto &e : g_tape) {
+                        c.check(same(canon(*e.A), cur), "rebuild:chain:" + tag, "rebuild: coarse_operator on this level was not given the new matrix of the level", where);
+                        c.check(same(canon(*e.P), b0.P[k]) && same(canon(*e.R), b0.R[k]), "rebuild:transfer-operators-changed:" + tag, "rebuild: coarse_operator was given transfer operators that differ from the original ones", where);
+                        check_galerkin(c, e, cfg.alpha, false, tag); cur = canon(*e.Ac); chain.push_back(cur); ++k; }
+                    vf::obs_sum("rebuilds_observed_through_policy"); }
+                else { chain.clear(); vf::obs_sum("rebuilds_not_observed_through_policy"); }
+                // (b) level list: transfer operators untouched; every stored level matrix is the (rescaled) Galerkin product of the level above
+                size_t li = 0; bool lv_ok = lv.size() == m + 1; const Mat *Aprev = nullptr, *Pprev = nullptr, *Rprev = nullptr;
+                for (auto it = lv.begin(); lv_ok && it != lv.end(); ++it, ++li) {
+                    if (li < m) c.check(it->P && it->R && it->bP && it->bR && same(canon(*it->P), b0.P[li]) && same(canon(*it->R), b0.R[li]) && same(canon(*it->bP), b0.P[li]) && same(canon(*it->bR), b0.R[li]), "rebuild:transfer-operators-changed:" + tag, "rebuild changed P / R / bP / bR of a level", where);
+                    if (li == 0) c.check(it->A && same(canon(*it->A), first), "rebuild:stale-level-matrix:" + tag, "after rebuild the finest level does not hold the new matrix", J().n("level", li).n("step", step).s("matrix", mname));
+                    if (it->A && !chain.empty()) c.check(same(canon(*it->A), chain[li]), "rebuild:stale-level-matrix:" + tag, "after rebuild a level matrix is not the coarse operator computed for the new matrix", J().n("level", li).n("step", step).s("matrix", mname));
+                    if (it->A && Aprev && Pprev && Rprev) { Ev e; e.kind = 1; e.A = std::make_shared<Mat>(*Aprev); e.P = std::make_shared<Mat>(*Pprev); e.R = std::make_shared<Mat>(*Rprev); e.Ac = std::make_shared<Mat>(*it->A);
+                        if (!check_galerkin(c, e, cfg.alpha, false, tag)) c.fail("rebuild:stale-level-matrix:" + tag, "after rebuild a level matrix is not R A' P (rescaled) of the level above", J().n("level", li).n("step", step).s("matrix", mname)); }
+                    Aprev = it->A ? it->A.get() : nullptr; Pprev = it->bP ? it->bP.get() : nullptr; Rprev = it->bR ? it->bR.get() : nullptr; }
                 c.check(lv_ok, "rebuild:level-count-changed:" + tag, "rebuild changed the number of levels", where);
                 // (c) fresh hierarchy from An with the recorded transfer operators (replaying policy): level matrices and action bitwise equal
                 g_rep = ReplaySrc(); for (size_t l = 0; l < m; ++l) g_rep.pr.emplace_back(b0.Praw[l], b0.Rraw[l]);
